@@ -15,6 +15,8 @@ Round 4: the couplers' factory prologues (args / kwds defaults) agree with their
 reference.
 The window of and_'s fixed-point test spans n applications (n+1 history entries,
 the input included in the first pass).
+Round 5 (hunt): and_ claims success only after n applications without change
+(repair 97a6f16).
 NOT decided: convergence within maxiter.
 """
 import ast
